@@ -480,6 +480,10 @@ def rule_key_paths(ctx, rid):
             cond = []
             for c, truth, ln in e.state.conds:
                 cond.append((show(c), truth))
+                if c[0] == 'call' and c[1] == 'builtins.isinstance' and len(c[2]) == 2 and c[2][0][0] == 'ref':
+                    ctx.violation(rid, fi, '%s: the list test of the transformed key is well-formed' % m,
+                                  'isinstance(%s, %s): the arguments are swapped (TypeError for every key)'
+                                  % (show(c[2][0]), show(c[2][1])[:40]))
             table[tuple(cond)] = loc
         tables[m] = (fi, table)
     ref_fi, ref = tables['__getitem__']
@@ -539,6 +543,10 @@ def _chain(loc):
             idxs.append('key')
         elif i[0] == 'sub' and i[1][0] == 'call' and i[1][1].endswith('__keytransform__') and is_c(i[2]):
             idxs.append('key[%d]' % i[2][1])
+        elif i == S('key'):
+            idxs.append('untransformed key')          # the raw argument: 'a/b' is not split
+        elif i[0] == 'sub' and i[1] == S('key') and is_c(i[2]):
+            idxs.append('untransformed key[%s]' % i[2][1])      # a character of the raw string
         else:
             idxs.append(show(i)[:30])
         t = t[1]
@@ -569,9 +577,11 @@ def rule_yaml_pairing(ctx, rid):
     SELF_STORE = ('attr', S('self'), 'store')
     c = 'writer payload == [{sift_type: own type}, converted copy of the own store]'
     src = store_t
+    converted = False
     while True:
         if src[0] == 'call' and src[1] == 'emd.sift._array_or_tuple_to_list' and dict(src[3]).get('conf') is not None:
             src = dict(src[3])['conf']
+            converted = True
         elif src[0] == 'meth' and src[1] == 'copy' and not src[3]:
             src = src[2]
         elif src[0] == 'call' and src[1] in ('copy.deepcopy', 'copy.copy', 'builtins.dict') and len(src[2]) == 1:
@@ -584,6 +594,10 @@ def rule_yaml_pairing(ctx, rid):
     elif src != SELF_STORE:
         ctx.violation(rid, safe, c, 'the options written to YAML are %s, not (a converted copy of) the own store'
                       % show(store_t)[:80], expected='self.store', found=show(src)[:60])
+    elif not converted:
+        ctx.violation(rid, safe, c, 'the options are written without the YAML-safe conversion: array-valued options (mask '
+                      'frequencies, thresholds given as arrays) are dumped as python-object tags that the reader\'s FullLoader '
+                      'refuses', expected='_array_or_tuple_to_list(copy of self.store)', found=show(store_t)[:80])
     else:
         ctx.passed(rid, safe, c)
     # the callable built from a configuration is the configured variant with exactly the stored options
@@ -653,6 +667,10 @@ def rule_yaml_pairing(ctx, rid):
                 continue
             ld = loads[0]
             rmulti = ld[1].endswith('_all')
+            if ld[1] in ('yaml.load', 'yaml.load_all') and 'Loader' not in dict(ld[3]) and len(ld[2]) < 2:
+                verdicts.append((False, '%s is called without a Loader: PyYAML >= 6 raises TypeError, earlier versions fall back '
+                                 'to an unsafe default with a warning' % ld[1]))
+                continue
             if multi and rmulti:
                 doc = shape                      # list of documents == payload elements
             elif (not multi) and (not rmulti):
